@@ -41,7 +41,8 @@ def pool(run, n):
     run.rng.shuffle(reqs)
     reqs = reqs[:380]
     # spellings whose meaning depends on the dialect, under every dialect: an earlier call in another dialect must not change them
-    for q in ["SELECT !a = b FROM t", "SELECT a FROM t WHERE !(a > 1) AND b == 2", "SELECT CURRENT DATE FROM t", "SELECT a % 2, arr[1] FROM t", "SELECT a FROM t WHERE NOT a = b"]:
+    for q in ["SELECT !a = b FROM t", "SELECT a FROM t WHERE !(a > 1) AND b == 2", "SELECT CURRENT DATE FROM t", "SELECT a % 2, arr[1] FROM t", "SELECT a FROM t WHERE NOT a = b",
+              "SELECT CAST(a AS DOUBLE PRECISION), CAST(b AS CHARACTER VARYING) FROM t", "SELECT CAST(a AS UNSIGNED INT), CAST(b AS SIGNED) FROM t"]:
         for d in ("HIVE", "MYSQL", "DEFAULT", "DB2", "HIVE", "ORACLE"):
             reqs.insert(run.rng.randrange(len(reqs) + 1), sqlgen.parse_request("statements", d, q))
             reqs.insert(run.rng.randrange(len(reqs) + 1), stmt.print_request("statements", d, run.rng.choice(["HIVE", "MYSQL", "DB2"]), q))
